@@ -95,15 +95,48 @@ func (c *Collection) TotalWeight() int {
 
 // Bounds returns the bounds of all the items in the collection.
 func (c *Collection) Bounds() (minX, minY, maxX, maxY float64) {
-	_, _, left := c.spatial.LeftMost()
-	_, _, bottom := c.spatial.BottomMost()
-	_, _, right := c.spatial.RightMost()
-	_, _, top := c.spatial.TopMost()
+	lmin, _, left := c.spatial.LeftMost()
+	bmin, _, bottom := c.spatial.BottomMost()
+	_, rmax, right := c.spatial.RightMost()
+	_, tmax, top := c.spatial.TopMost()
 	if left == nil {
 		return
 	}
-	return left.Rect().Min.X, bottom.Rect().Min.Y,
-		right.Rect().Max.X, top.Rect().Max.Y
+	minX, minY = left.Rect().Min.X, bottom.Rect().Min.Y
+	maxX, maxY = right.Rect().Max.X, top.Rect().Max.Y
+	// The index holds float32 rectangles, so several objects can share an
+	// extreme index coordinate while their exact coordinates differ. Take
+	// the exact extreme among the objects that share it.
+	inf := float32(math.Inf(1))
+	c.spatial.Search([2]float32{lmin[0], -inf}, [2]float32{lmin[0], inf},
+		func(min, _ [2]float32, o *object.Object) bool {
+			if min[0] == lmin[0] && o.Rect().Min.X < minX {
+				minX = o.Rect().Min.X
+			}
+			return true
+		})
+	c.spatial.Search([2]float32{-inf, bmin[1]}, [2]float32{inf, bmin[1]},
+		func(min, _ [2]float32, o *object.Object) bool {
+			if min[1] == bmin[1] && o.Rect().Min.Y < minY {
+				minY = o.Rect().Min.Y
+			}
+			return true
+		})
+	c.spatial.Search([2]float32{rmax[0], -inf}, [2]float32{rmax[0], inf},
+		func(_, max [2]float32, o *object.Object) bool {
+			if max[0] == rmax[0] && o.Rect().Max.X > maxX {
+				maxX = o.Rect().Max.X
+			}
+			return true
+		})
+	c.spatial.Search([2]float32{-inf, tmax[1]}, [2]float32{inf, tmax[1]},
+		func(_, max [2]float32, o *object.Object) bool {
+			if max[1] == tmax[1] && o.Rect().Max.Y > maxY {
+				maxY = o.Rect().Max.Y
+			}
+			return true
+		})
+	return minX, minY, maxX, maxY
 }
 
 func (c *Collection) indexDelete(item *object.Object) {
